@@ -27,6 +27,7 @@ import (
 	sdkerrors "github.com/cosmos/cosmos-sdk/types/errors"
 	authtypes "github.com/cosmos/cosmos-sdk/x/auth/types"
 	"github.com/cosmos/cosmos-sdk/x/authz"
+	"github.com/cosmos/ibc-apps/middleware/packet-forward-middleware/v8/packetforward"
 	transfertypes "github.com/cosmos/ibc-go/v8/modules/apps/transfer/types"
 	clienttypes "github.com/cosmos/ibc-go/v8/modules/core/02-client/types"
 	channeltypes "github.com/cosmos/ibc-go/v8/modules/core/04-channel/types"
@@ -70,6 +71,9 @@ var pkRollappIDs = []string{"raa_1001-1", "rbb_1002-1"}
 
 const pkUnknownRollapp = "rxx_9009-1"
 
+// sender named in the data of every packet the counterparties send to the hub
+const pkCpSender = "rollapp-side-sender"
+
 type pkH struct {
 	t        *testing.T
 	f        *Fix
@@ -77,11 +81,13 @@ type pkH struct {
 	actors   []sdk.AccAddress // sorted by bech32 string; index NActors is an address without an account
 	actorIdx map[string]int
 	blocked  sdk.AccAddress
+	pfm      []sdk.AccAddress // packet-forward-middleware's intermediate receiver per inbound hub channel (model address 2000+c)
 	relayer  sdk.AccAddress
 	chans    []pkChan
 	denoms   []string // index -> hub denom string
 	denomIdx map[string]int
 	sentPkts map[[2]uint64]channeltypes.Packet
+	fwdOf    map[[2]uint64][2]uint64 // forwarded packet (hub channel, sequence) -> the inbound packet (hub channel, sequence) it forwards
 	recvSeen [][2]uint64
 	sentSeen [][2]uint64
 	nStates  []uint64 // number of state infos per rollapp
@@ -92,7 +98,7 @@ type pkH struct {
 }
 
 func newPkH(t *testing.T, p pkParams) *pkH {
-	h := &pkH{t: t, f: NewFix(t), p: p, actorIdx: map[string]int{}, denomIdx: map[string]int{}, sentPkts: map[[2]uint64]channeltypes.Packet{}}
+	h := &pkH{t: t, f: NewFix(t), p: p, actorIdx: map[string]int{}, denomIdx: map[string]int{}, sentPkts: map[[2]uint64]channeltypes.Packet{}, fwdOf: map[[2]uint64][2]uint64{}}
 	f, app := h.f, h.f.App
 	var as []sdk.AccAddress
 	for i := 0; i <= p.NActors; i++ {
@@ -158,6 +164,13 @@ func newPkH(t *testing.T, p pkParams) *pkH {
 	}
 	for i, c := range h.chans {
 		f.mkChannel(i, c.ClientID, c.Hub, c.Cp)
+		is, err := packetforward.GetReceiver(c.Hub, pkCpSender)
+		if err != nil {
+			t.Fatal(err)
+		}
+		ia := sdk.MustAccAddressFromBech32(is)
+		h.pfm = append(h.pfm, ia)
+		h.actorIdx[is] = 2000 + i
 	}
 	for ri, id := range pkRollappIDs {
 		app.LightClientKeeper.SetCanonicalClient(f.Ctx, id, clients[ri])
@@ -194,11 +207,22 @@ func (h *pkH) addr(tok string) (sdk.AccAddress, string) {
 	if tok == "blk" {
 		return h.blocked, h.blocked.String()
 	}
+	if strings.HasPrefix(tok, "A") {
+		// the same account, its bech32 address spelled in UPPER CASE (valid bech32; a different string)
+		a, str := h.addr("a" + tok[1:])
+		if a == nil {
+			return a, str
+		}
+		return a, strings.ToUpper(str)
+	}
 	if strings.HasPrefix(tok, "a") {
 		i, err := strconv.Atoi(tok[1:])
 		if err == nil {
 			if i >= 0 && i < len(h.actors) {
 				return h.actors[i], h.actors[i].String()
+			}
+			if i >= 2000 && i < 2000+len(h.pfm) {
+				return h.pfm[i-2000], h.pfm[i-2000].String()
 			}
 			a := Actor(5000 + i)
 			h.actorIdx[a.String()] = i
@@ -209,6 +233,9 @@ func (h *pkH) addr(tok string) (sdk.AccAddress, string) {
 }
 
 func (h *pkH) aname(addr string) string {
+	if addr == strings.ToUpper(addr) {
+		addr = strings.ToLower(addr)
+	}
 	if i, ok := h.actorIdx[addr]; ok {
 		return "a" + strconv.Itoa(i)
 	}
@@ -439,6 +466,13 @@ func (h *pkH) memoTok(tok string) string {
 		return `{"eibc":{"fee":"abc"}}`
 	case strings.HasPrefix(tok, "e:"):
 		return fmt.Sprintf(`{"eibc":{"fee":"%s"}}`, tok[2:])
+	case strings.HasPrefix(tok, "fw:"):
+		// packet-forward-middleware: forward the received funds over hub channel c<k>
+		ch := "channel-99"
+		if k := idxTok(tok[3:]); k >= 0 && k < len(h.chans) {
+			ch = h.chans[k].Hub
+		}
+		return fmt.Sprintf(`{"forward":{"receiver":"rollapp-side-receiver","port":"%s","channel":"%s"}}`, pkPort, ch)
 	}
 	return ""
 }
@@ -459,17 +493,37 @@ func (h *pkH) exec(line string) string {
 			denom = fmt.Sprintf("%s/%s/%s", pkPort, c.Cp, h.tracePath(idxTok(m["den"])))
 		}
 		_, to := h.addr(m["to"])
-		data := transfertypes.NewFungibleTokenPacketData(denom, m["amt"], "rollapp-side-sender", to, h.memoTok(m["memo"]))
+		data := transfertypes.NewFungibleTokenPacketData(denom, m["amt"], pkCpSender, to, h.memoTok(m["memo"]))
 		seq := atou(m["seq"])
 		pkt := channeltypes.NewPacket(data.GetBytes(), seq, pkPort, c.Cp, pkPort, c.Hub, clienttypes.NewHeight(1, 1000000), 0)
 		h.noteRecv(uint64(ci), seq)
-		return fx.ibcRecv(pkt, atou(m["ph"]), h.relayer)
-	case "send":
+		res := fx.ibcRecv(pkt, atou(m["ph"]), h.relayer)
+		h.lastErr = pkLastRecvErr
+		if strings.HasPrefix(m["memo"], "fw:") && res == "async" {
+			// the forwarded packet left the hub from inside the callback
+			if fp, ok := packetFromEvents(pkLastRecvEvents); ok {
+				for k, c2 := range h.chans {
+					if c2.Hub == fp.SourceChannel {
+						h.sentPkts[[2]uint64{uint64(k), fp.Sequence}] = fp
+						h.sentSeen = append(h.sentSeen, [2]uint64{uint64(k), fp.Sequence})
+						h.fwdOf[[2]uint64{uint64(k), fp.Sequence}] = [2]uint64{uint64(ci), seq}
+					}
+				}
+			} else {
+				h.t.Fatalf("recv with forward memo returned a nil acknowledgement but no packet was sent")
+			}
+		}
+		return res
+	case "send", "sendblk":
 		a, _ := h.addr(f[1])
 		ci := idxTok(f[2])
 		c := h.chans[ci]
 		amt, _ := math.NewIntFromString(m["amt"])
-		msg := transfertypes.NewMsgTransfer(pkPort, c.Hub, sdk.Coin{Denom: h.denomTok(m["den"]), Amount: amt}, a.String(), "rollapp-side-receiver", clienttypes.NewHeight(1, 1000000), 0, "")
+		rcv := "rollapp-side-receiver"
+		if f[0] == "sendblk" {
+			rcv = h.blocked.String() // the counterparty-side receiver happens to be the bech32 of a blocked hub account
+		}
+		msg := transfertypes.NewMsgTransfer(pkPort, c.Hub, sdk.Coin{Denom: h.denomTok(m["den"]), Amount: amt}, a.String(), rcv, clienttypes.NewHeight(1, 1000000), 0, "")
 		res, err := fx.Deliver(msg)
 		if err != nil {
 			return "err"
@@ -512,7 +566,16 @@ func (h *pkH) exec(line string) string {
 		} else {
 			r = fx.ibcTimeoutCls(pkt, atou(m["ph"]), h.relayer)
 		}
+		h.lastErr = pkLastRecvErr
 		return r
+	case "timeoutclose":
+		// MsgTimeoutOnClose for a packet the hub sent (the counterparty's channel end is closed)
+		ci := idxTok(f[1])
+		pkt, ok := h.sentPkts[[2]uint64{uint64(ci), atou(m["seq"])}]
+		if !ok {
+			return "replay"
+		}
+		return fx.ibcTimeoutOnCloseCls(pkt, h.relayer)
 	case "fin":
 		_, a := h.addr(f[1])
 		src := m["src"]
@@ -755,6 +818,7 @@ func (f *Fix) ibcAckCls(pkt channeltypes.Packet, ack []byte, ph uint64, relayer 
 		ctx = f.proofCtx(ctx, commontypes.RollappPacket_ON_ACK, pkt, ph)
 		return f.App.TransferStack.OnAcknowledgementPacket(ctx, pkt, ack, relayer)
 	})
+	pkLastRecvErr = err
 	return pkClass(err)
 }
 
@@ -768,6 +832,37 @@ func (f *Fix) ibcTimeoutCls(pkt channeltypes.Packet, ph uint64, relayer sdk.AccA
 		ctx = f.proofCtx(ctx, commontypes.RollappPacket_ON_TIMEOUT, pkt, ph)
 		return f.App.TransferStack.OnTimeoutPacket(ctx, pkt, relayer)
 	})
+	pkLastRecvErr = err
+	return pkClass(err)
+}
+
+// ibcTimeoutOnCloseCls stands for ibc-go core's MsgTimeoutOnClose handler (keeper.TimeoutOnClose + the
+// callback OnTimeoutPacket; a callback error fails the message).  The context comes from the real
+// IBCProofHeightDecorator over a transaction holding the MsgTimeoutOnClose (and a MsgRecvPacket for the same
+// port / channel / sequence: its proof height must not be picked up).
+func (f *Fix) ibcTimeoutOnCloseCls(pkt channeltypes.Packet, relayer sdk.AccAddress) string {
+	ck := f.App.IBCKeeper.ChannelKeeper
+	if len(ck.GetPacketCommitment(f.Ctx, pkt.SourcePort, pkt.SourceChannel, pkt.Sequence)) == 0 {
+		return "replay"
+	}
+	err := f.Try(func(ctx sdk.Context) error {
+		f.deleteCommitment(ctx, pkt)
+		decoy := pkt
+		decoy.DestinationPort, decoy.DestinationChannel = pkt.SourcePort, pkt.SourceChannel
+		msgs := []sdk.Msg{
+			&channeltypes.MsgRecvPacket{Packet: decoy, ProofHeight: clienttypes.NewHeight(1, 1), Signer: Actor(1).String()},
+			&channeltypes.MsgTimeoutOnClose{Packet: pkt, ProofHeight: clienttypes.NewHeight(1, 1), Signer: Actor(1).String()},
+		}
+		out, err := commontypes.NewIBCProofHeightDecorator().AnteHandle(ctx, pkTx{msgs}, false,
+			func(c sdk.Context, _ sdk.Tx, _ bool) (sdk.Context, error) { return c, nil })
+		if err != nil {
+			return err
+		}
+		return f.App.TransferStack.OnTimeoutPacket(out, pkt, relayer)
+	})
+	if err != nil && errors.Is(err, gerrc.ErrInternal) && strings.Contains(err.Error(), "get proof height from context") {
+		return "internal"
+	}
 	return pkClass(err)
 }
 
@@ -917,12 +1012,16 @@ func (h *pkH) snapshot() *pkSnap {
 		byPend[q.PendKey] = q.Name
 	}
 	for i := range h.actors {
+		// the index is keyed by the address STRING as the packet data spells it: both spellings of the account
 		ps, err := app.DelayedAckKeeper.GetPendingPacketsByAddress(ctx, h.actors[i].String())
-		if err != nil {
+		ps2, err2 := app.DelayedAckKeeper.GetPendingPacketsByAddress(ctx, strings.ToUpper(h.actors[i].String()))
+		if err != nil || err2 != nil {
 			s.Index[i], s.IndexOK[i] = []string{"ERR"}, false
 			continue
 		}
 		s.IndexOK[i] = true
+		ps = append(ps, ps2...)
+		sort.SliceStable(ps, func(a, b int) bool { return bytes.Compare(ps[a].RollappPacketKey(), ps[b].RollappPacketKey()) < 0 })
 		for _, p := range ps {
 			p := p
 			s.Index[i] = append(s.Index[i], h.pktName(&p))
@@ -1017,6 +1116,7 @@ func (h *pkH) snapshot() *pkSnap {
 	}
 	for i, c := range h.chans {
 		accts["e"+strconv.Itoa(i)] = transfertypes.GetEscrowAddress(pkPort, c.Hub)
+		accts["a"+strconv.Itoa(2000+i)] = h.pfm[i]
 	}
 	for n, a := range accts {
 		for _, d := range h.denoms {
@@ -1055,6 +1155,12 @@ func (h *pkH) snapshot() *pkSnap {
 
 var pkRefundErrRe = regexp.MustCompile(`^unable to unescrow tokens, this may be caused by a malicious counterparty module or a bug: please open an issue on counterparty module: spendable balance (\d+)(\S+) is smaller than (\d+)(\S+): insufficient funds$`)
 
+// packet-forward-middleware WriteAcknowledgementForForwardedPacket: the two ways the refund of a forward can fail
+// (fmt.Errorf("...: %w") over a registered sdk error prints that error's source location: module path and line of
+// the bank keeper, the same in every process of one binary)
+var pkFwdMoveErrRe = regexp.MustCompile(`^failed to send coins from escrow account to refund escrow account: spendable balance (\d+)(\S+) is smaller than (\d+)(\S+): insufficient funds(?: \[[^\]]+\])?$`)
+var pkFwdBurnErrRe = regexp.MustCompile(`^failed to send coins from escrow to module account for burn: spendable balance (\d+)(\S+) is smaller than (\d+)(\S+): insufficient funds(?: \[[^\]]+\])?$`)
+
 // errClassOf canonicalises RollappPacket.Error: the texts the unchanged code produces are recognised
 // EXACTLY and named; anything else (e.g. a text carrying process-local data) shows as x<digest>
 func (h *pkH) errClassOf(e string) string {
@@ -1075,6 +1181,16 @@ func (h *pkH) errClassOf(e string) string {
 	if m := pkRefundErrRe.FindStringSubmatch(e); m != nil && m[2] == m[4] {
 		if i, ok := h.denomIdx[m[2]]; ok {
 			return fmt.Sprintf("refund:%s:%s:d%d", m[1], m[3], i)
+		}
+	}
+	for _, x := range []struct {
+		re  *regexp.Regexp
+		cls string
+	}{{pkFwdMoveErrRe, "fwdMove"}, {pkFwdBurnErrRe, "fwdBurn"}} {
+		if m := x.re.FindStringSubmatch(e); m != nil && m[2] == m[4] {
+			if i, ok := h.denomIdx[m[2]]; ok {
+				return fmt.Sprintf("%s:%s:%s:d%d", x.cls, m[1], m[3], i)
+			}
 		}
 	}
 	d := sha256.Sum256([]byte(e))
@@ -1129,6 +1245,9 @@ func (s *pkSnap) render(h *pkH, res string) string {
 	}
 	for i := range h.chans {
 		names = append(names, "e"+strconv.Itoa(i))
+	}
+	for i := range h.chans {
+		names = append(names, "a"+strconv.Itoa(2000+i))
 	}
 	for _, n := range names {
 		var vs []string
